@@ -33,7 +33,7 @@ SMALL_SCOPE = [(fl, pol, lim, 5) for fl in ("global", "thread", "async") for pol
 def macro_stream(nontrivial=(), quick=1200, thorough=20000, what=""):
     return {
         "kind": "macro",
-        "what": what or "L2: real #[cache]/#[cache_async] generated functions (corpus of 122 decorated functions: 48 random attribute x signature x return-type combinations, 4 fixed ones, 30 systematic flavour x policy combinations with limit+invalidate_on / max_memory+cache_if, 12 further signature shapes (two integers, methods with string+integer and three scalars, Vec, tuple, Option+f64, destructuring tuple patterns) sync and async, 12 plain functions (every policy, sync global and async)), real invalidation and statistics registries, real threads for thread scope, virtual time through the verif hooks vs Cachelito.sysStep; outputs, predicate logs, statistics and the dump of every cache instance compared per operation",
+        "what": what or "L2: real #[cache]/#[cache_async] generated functions (corpus of 130 decorated functions: 48 random attribute x signature x return-type combinations, 4 fixed ones, 30 systematic flavour x policy combinations with limit+invalidate_on / max_memory+cache_if, 12 further signature shapes (two integers, methods with string+integer and three scalars, Vec, tuple, Option+f64, destructuring tuple patterns) sync and async, 12 plain functions (every policy, sync global and async), 4 plain Result functions, 8 TTL+limit functions, 8 Result functions with TTL+limit in every flavour), real invalidation and statistics registries, real threads for thread scope, virtual time through the verif hooks vs Cachelito.sysStep; outputs, predicate logs, statistics and the dump of every cache instance compared per operation",
         "episodes": {"quick": quick, "thorough": thorough},
         "ops": {"quick": 50, "thorough": 80},
         "nontrivial": list(nontrivial),
@@ -123,7 +123,7 @@ PROPS = {
         "streams": [lines_stream("attrs_diff", "attrs", ["gen", "{seed}", "{n}", "{n}"], 1500, 20000,
                                  "attrs: generated attribute lists (mostly valid: every attribute present/absent, six policies, limits, ttls, max_memory in all forms and letter cases, weights, names, arrays, paths; plus a malformed stream: unknown names, typos, wrong literal kinds, out-of-set policy/scope, negative/overflowing numbers, repeated attributes with an invalid occurrence) through the REAL parse_sync_attributes / parse_async_attributes (catch_unwind) vs Attrs.parse; is_result and has_max_memory expressions copied verbatim", r"^[AR]\|"),
                     {"kind": "compile", "nontrivial": [], "what": "compile corpus through rustc: 22 invalid attribute lists (unknown names, typos, wrong literal kinds, out-of-set policy/scope, negative/float/overflowing numbers, repeated attribute with an invalid occurrence) must fail to compile with the REAL macros, 5 valid controls must compile (one cargo check --examples --keep-going)"},
-                    macro_stream(nontrivial=["call"], what="L2 behavioural fidelity: 122 generated functions covering attribute values x signature shapes (0-4 args of integer, bool, char, string, Option, Vec, tuple and float types, &self / &mut self / self / none) x return types compile and behave like the core cache configured with the values as written (full cache dumps compared per call)")],
+                    macro_stream(nontrivial=["call"], what="L2 behavioural fidelity: 130 generated functions covering attribute values x signature shapes (0-4 args of integer, bool, char, string, Option, Vec, tuple and float types, &self / &mut self / self / none) x return types compile and behave like the core cache configured with the values as written (full cache dumps compared per call)")],
         "monitors": ["C19"],
         "rule": "attrs: one attribute list per line, distinct lines counted; L2: every call on a generated function",
         "level_text": "Lean theorems about the transcribed attribute parser: every Valid list is accepted with exactly its meaning (last occurrence wins, defaults otherwise, n KB/MB/GB = n*1024^k in any letter case), every list containing an unknown name or an invalid policy/scope/limit/ttl/max_memory/frequency_weight value ANYWHERE is rejected (parser error, spliced compile_error or panic - all compile failures), overflowing sizes are rejected, the textual has_max_memory test equals maxMemory.isSome, isResultSpelling accepts exactly the two spellings. Tied to the code by running the real parser on generated token streams and by the compiled corpus of generated functions whose behaviour is compared with the model per call. Rejection 'at compile time' is checked end to end by compiling invalid lists with the real macros. That rustc accepts the generated code for EVERY valid program is sampled by the corpora, not proved.",
